@@ -77,6 +77,7 @@ type CellEv struct {
 	Mutated     int      `json:"mutated"`  // 1: the recipe value changed across the calls (public fields)
 	Hidden      int      `json:"hidden"`   // 1: derived unexported fields of the caller's value became non-nil
 	PrevChg     int      `json:"prevChg"`  // >0: an earlier password changed when a later one was generated
+	ErrChg      int      `json:"errChg"`   // >0: an error value returned by an earlier call reads differently after a later call
 }
 
 func setEnv(maxTrials, failRateOne int) func() {
@@ -105,6 +106,27 @@ func hiddenNonNil(r interface{}) bool {
 		}
 	}
 	return false
+}
+
+// The error value a call returned belongs to that call: what it says must not change when later calls (on this or any other
+// recipe, anywhere in the process) are made. The last few error values are kept with what they said when they were returned.
+var keptErrs []error
+var keptErrMsgs []string
+
+func errChanged(newErr error) (changed bool) {
+	for i, e := range keptErrs {
+		if e.Error() != keptErrMsgs[i] {
+			changed = true
+			keptErrMsgs[i] = e.Error()
+		}
+	}
+	if newErr != nil {
+		keptErrs, keptErrMsgs = append(keptErrs, newErr), append(keptErrMsgs, newErr.Error())
+		if len(keptErrs) > 8 {
+			keptErrs, keptErrMsgs = keptErrs[1:], keptErrMsgs[1:]
+		}
+	}
+	return
 }
 
 // runCharCell enumerates (or samples paths of) one character recipe and emits its events.
@@ -172,6 +194,9 @@ func charCellEvents(id int, sc Scenario, seed int64, rp *spg.CharRecipe) (events
 			*res = ResOf(p, err, nil)
 			if lastP != nil && !reflect.DeepEqual(ResOf(lastP, nil, nil), lastRes) {
 				cell.PrevChg++
+			}
+			if errChanged(err) {
+				cell.ErrChg++
 			}
 			if err == nil && p != nil {
 				lastP, lastRes = p, *res
